@@ -40,6 +40,7 @@ type Op struct {
 	ID       string   `json:"id"`
 	Scenario string   `json:"scenario,omitempty"`
 	File     string   `json:"file,omitempty"`
+	Text     string   `json:"text,omitempty"`
 	Engine   string   `json:"engine,omitempty"`
 	Input    string   `json:"input,omitempty"`
 	Chunk    uint64   `json:"chunk,omitempty"`
@@ -63,6 +64,7 @@ type Fault struct {
 }
 
 type Violation struct {
+	Frame  string `json:"frame,omitempty"`
 	Rule   string `json:"rule"`
 	Detail string `json:"detail"`
 	Page   int    `json:"page"`
